@@ -92,10 +92,10 @@ static std::string innermostEzc3d(const std::string& err) {
 struct FCrumb { volatile uint64_t idx, progress; volatile uint32_t done; };
 
 int main(int argc, char** argv) {
-    std::string tier = "quick", scratch, out, one, profile = "full"; int workers = 16; double deadlineS = 1e9, limitS = 0.4; bool listBases = false;
+    std::string tier = "quick", scratch, out, one, profile = "full"; int workers = 16; double deadlineS = 1e9, limitS = 0.4; bool listBases = false, primed = false;
     for (int i = 1; i < argc; ++i) { std::string a = argv[i]; auto nxt = [&]() { return std::string(argv[++i]); };
         if (a == "--tier") tier = nxt(); else if (a == "--scratch") scratch = nxt(); else if (a == "--out") out = nxt(); else if (a == "--workers") workers = atoi(nxt().c_str()); else if (a == "--deadline") deadlineS = atof(nxt().c_str());
-        else if (a == "--case") one = nxt(); else if (a == "--limit") limitS = atof(nxt().c_str()); else if (a == "--list-bases") listBases = true; else if (a == "--profile") profile = nxt(); else { fprintf(stderr, "unknown arg %s\n", a.c_str()); return 2; } }
+        else if (a == "--case") one = nxt(); else if (a == "--limit") limitS = atof(nxt().c_str()); else if (a == "--list-bases") listBases = true; else if (a == "--profile") profile = nxt(); else if (a == "--primed") primed = true; else { fprintf(stderr, "unknown arg %s\n", a.c_str()); return 2; } }
     if (scratch.empty()) scratch = "/dev/shm/ezc3d-verif-dmg." + std::to_string(getpid()); mkdir(scratch.c_str(), 0755);
     bool thorough = tier == "thorough";
 #ifdef VF_ASAN
@@ -137,6 +137,22 @@ int main(int argc, char** argv) {
             printf("child: %s %d\n", WIFEXITED(st) ? "exit" : "signal", WIFEXITED(st) ? WEXITSTATUS(st) : WTERMSIG(st)); return (WIFEXITED(st) && (WEXITSTATUS(st) == 0 || WEXITSTATUS(st) == 10)) ? 0 : 1;
         }
         printf("case not found\n"); return 2;
+    }
+    // --primed: the process every loader child is forked from has already loaded valid files (every base, and files with unlabeled points and channels
+    // of several counts): whatever process-wide state a load leaves behind (caches, lazily built tables) is warm when the damaged file arrives
+    size_t primerLoads = 0; std::string primerFailure;
+    if (primed) {
+        std::vector<std::string> pc; for (auto& bd : baseDefs) pc.push_back(bd.second);
+        for (auto x : {"labels=fewer;alabels=fewer", "labels=fewer;alabels=fewer;points=1;chans=1", "points=3;chans=3;labels=fewer;alabels=fewer", "labels=more;alabels=more", "extra=all;events=18", "agroup=empty;chans=0", "default"}) pc.push_back(x);
+        auto prime = [&]() { size_t n = 0; for (auto& ch : pc) { gen::Content c; gen::Layout l; if (!gen::apply(gen::parseChoice(ch), c, l)) continue; std::string pp = scratch + "/primer.c3d"; writeAll(pp, gen::encode(c, l)); try { C3D c3(pp); (void)c3.data().nbFrames(); ++n; } catch (...) { } } return n; };
+        // first in a child of its own: a loader that cannot even take these VALID files one after the other is reported, not allowed to take the driver down
+        std::string errp = scratch + "/primer.err"; fflush(stdout); pid_t c = fork();
+        if (c == 0) { int efd = open(errp.c_str(), O_WRONLY | O_CREAT | O_TRUNC, 0644); dup2(efd, 2); close(efd); signal(SIGSEGV, crashHandler); signal(SIGBUS, crashHandler); signal(SIGABRT, crashHandler); signal(SIGFPE, crashHandler); signal(SIGALRM, crashHandler); alarm(60); size_t n = prime(); _exit(n == pc.size() ? 0 : 20); }
+        int st = 0; waitpid(c, &st, 0);
+        if (WIFEXITED(st) && WEXITSTATUS(st) == 0) primerLoads = prime();
+        else { std::string err; readAll(errp, err); std::string kind = !WIFEXITED(st) ? "signal_" + std::to_string(WTERMSIG(st)) : WEXITSTATUS(st) == 20 ? "valid_file_refused" : WEXITSTATUS(st) == 97 ? "hang" : WEXITSTATUS(st) == 98 ? "fatal_signal" : (err.find("AddressSanitizer") != std::string::npos ? "sanitizer" : "exit_" + std::to_string(WEXITSTATUS(st)));
+            if (kind == "sanitizer") { size_t p2 = err.find("AddressSanitizer: "); if (p2 != std::string::npos) { size_t e = err.find_first_of(" \n", p2 + 18); kind = "asan:" + err.substr(p2 + 18, e - p2 - 18); } }
+            primerFailure = kind + "/" + innermostEzc3d(err) + "/valid-files-loaded-one-after-the-other"; }
     }
     double t0 = nowS(), deadline = t0 + deadlineS;
     FCrumb* crumbs = (FCrumb*)mmap(nullptr, sizeof(FCrumb) * (size_t)workers, PROT_READ | PROT_WRITE, MAP_SHARED | MAP_ANONYMOUS, -1, 0);
@@ -185,6 +201,7 @@ int main(int argc, char** argv) {
     }
     for (int wi = 0; wi < workers; ++wi) { int st; waitpid(pids[wi], &st, 0); }
     std::map<std::string, uint64_t> outcomes; struct VR { std::string sig, cs; uint64_t count; }; std::map<std::string, VR> viol; uint64_t done = 0, doneSingles = 0;
+    if (!primerFailure.empty()) viol[primerFailure] = {primerFailure, "the 12 valid primer files, loaded in sequence by one process", 1};
     for (int wi = 0; wi < workers; ++wi) {
         std::ifstream fr(scratch + "/w" + std::to_string(wi) + ".res"); std::string line;
         while (std::getline(fr, line)) {
@@ -197,7 +214,7 @@ int main(int argc, char** argv) {
     }
     auto jstr = [](const std::string& s) { std::string o = "\""; for (unsigned char ch : s) { if (ch == '"' || ch == '\\') { o += '\\'; o += (char)ch; } else if (ch < 32 || ch > 126) o += '?'; else o += (char)ch; } return o + "\""; };
     FILE* f = out.empty() ? stdout : fopen(out.c_str(), "w");
-    fprintf(f, "{\n \"tier\": %s, \"profile\": \"%s\", \"flavour\": \"%s\", \"cases\": %zu, \"single_damage_cases\": %zu, \"pair_cases\": %zu, \"done\": %llu, \"wall_s\": %.1f, \"limit_s\": %.2f,\n \"bases\": {", jstr(tier).c_str(), profile.c_str(), flavour, dm.size(), singles, dm.size() - singles, (unsigned long long)done, nowS() - t0, limitS);
+    fprintf(f, "{\n \"tier\": %s, \"profile\": \"%s\", \"primed_with_valid_loads\": %zu, \"flavour\": \"%s\", \"cases\": %zu, \"single_damage_cases\": %zu, \"pair_cases\": %zu, \"done\": %llu, \"wall_s\": %.1f, \"limit_s\": %.2f,\n \"bases\": {", jstr(tier).c_str(), profile.c_str(), primerLoads, flavour, dm.size(), singles, dm.size() - singles, (unsigned long long)done, nowS() - t0, limitS);
     for (size_t i = 0; i < bases.size(); ++i) fprintf(f, "%s%s: {\"choice\": %s, \"bytes\": %zu, \"structural_bytes\": %zu}", i ? ", " : "", jstr(bases[i].name).c_str(), jstr(bases[i].choice).c_str(), bases[i].bytes.size(), bases[i].structural.size());
     fprintf(f, "},\n \"outcomes\": {"); { bool first = true; for (auto& kv : outcomes) { fprintf(f, "%s%s: %llu", first ? "" : ", ", jstr(kv.first).c_str(), (unsigned long long)kv.second); first = false; } }
     fprintf(f, "},\n \"samples\": ["); for (size_t i = 0, n = 0; i < dm.size() && n < 8; i += std::max<size_t>(1, dm.size() / 7), ++n) fprintf(f, "%s%s", n ? ", " : "", jstr(damageText(dm[i], bases)).c_str());
